@@ -60,9 +60,14 @@ def _has_call(e: ast.expr) -> bool:
 
 
 def _returns_only_in_if_chains(body: List[ast.stmt]) -> bool:
-    """every Return is a direct statement of the body or of an if/else nest"""
-    for st in body:
+    """every Return is a direct statement of the body or of an if/else nest, or sits at the end of a `try` that is the
+    last statement of its block (then leaving the try equals returning)"""
+    for idx, st in enumerate(body):
         if isinstance(st, ast.Return):
+            continue
+        if isinstance(st, ast.Try) and idx == len(body) - 1 and not st.finalbody and not st.orelse:
+            if not _returns_only_in_if_chains(st.body) or any(not _returns_only_in_if_chains(h.body) for h in st.handlers):
+                return False
             continue
         if isinstance(st, ast.If):
             if not _returns_only_in_if_chains(st.body) or not _returns_only_in_if_chains(st.orelse):
@@ -81,6 +86,8 @@ def _always_returns(body: List[ast.stmt]) -> bool:
     last = body[-1]
     if isinstance(last, (ast.Return, ast.Raise)):
         return True
+    if isinstance(last, ast.Try) and not last.finalbody and not last.orelse:
+        return _always_returns(last.body) and all(_always_returns(h.body) for h in last.handlers)
     if isinstance(last, ast.If) and last.orelse:
         return _always_returns(last.body) and _always_returns(last.orelse)
     return False
@@ -92,6 +99,14 @@ def _assignify(body: List[ast.stmt], make) -> List[ast.stmt]:
     for i, st in enumerate(body):
         if isinstance(st, ast.Return):
             out.extend(make(st.value))
+            return out
+        if isinstance(st, ast.Try) and i == len(body) - 1 and not st.finalbody and not st.orelse and any(isinstance(n, ast.Return) for n in ast.walk(st)):
+            new_try = ast.Try(body=_assignify(st.body, make) or [ast.Pass()], handlers=[], orelse=[], finalbody=[])
+            for h in st.handlers:
+                nh = ast.ExceptHandler(type=h.type, name=h.name, body=_assignify(h.body, make) or [ast.Pass()])
+                ast.copy_location(nh, h)
+                new_try.handlers.append(nh)
+            out.append(ast.copy_location(new_try, st))
             return out
         if isinstance(st, ast.If) and any(isinstance(n, ast.Return) for n in ast.walk(st)):
             rest = body[i + 1:]
